@@ -3,6 +3,7 @@ import OmbottModel.Model.MultipartSpec
 import OmbottModel.Gen.Multipart
 import OmbottModel.Lemmas.MultipartEatData
 import OmbottModel.Lemmas.MultipartWF
+import OmbottModel.Lemmas.MultipartTotal
 /-!
 C06 — Multipart parsing is independent of how the body is split into reads.
 Property theorems only; helper lemmas live in `Lemmas/Multipart*.lean`.
@@ -210,6 +211,27 @@ theorem section_contents_exact (boundary : Bytes) (parts : List Part) (epilogue 
       o.markups.map (sectionBytes (encodeBody boundary parts epilogue)) = expectedContents parts :=
   ⟨_, section_ranges_exact boundary parts epilogue hwf chunks hc, rfl, rfl,
     expected_contents boundary parts epilogue hwf⟩
+
+/-! ### "or the error reported": what can be reported at all (shared with C12) -/
+
+/-- For **every** input (any bytes, any chunking) and every boundary the constructor accepts, the
+markup ends with no error or with one of the three multipart error classes; the bounds that
+stand for the Python `while True` loops in the model are never reached (no hang), no assertion
+of the source fails, no built-in exception is raised.  The constructor itself rejects exactly the
+boundaries containing CR. -/
+theorem markup_total (boundary : Bytes) (chunks : List Bytes) :
+    (CR ∈ boundary → parseChunks boundary chunks = .error .invalidBoundaryError) ∧
+    (CR ∉ boundary → ∃ o, parseChunks boundary chunks = .ok o ∧
+      (o.error = none ∨ o.error = some .invalidBoundaryError ∨ o.error = some .malformedHeaders ∨
+        o.error = some .unexpectedBodyEnd)) := by
+  refine ⟨fun hb => by simp [parseChunks, St.init, Markuper.init, hb], fun hb => ?_⟩
+  obtain ⟨o, ho, he⟩ := parseChunks_total boundary hb chunks
+  refine ⟨o, ho, ?_⟩
+  cases hoe : o.error with
+  | none => exact Or.inl rfl
+  | some e =>
+    rw [hoe] at he
+    cases e <;> first | exact he.elim | simp
 
 /-! ### non-vacuity: concrete instances meeting the hypotheses; the residue outside them -/
 section NonVacuity
